@@ -249,6 +249,11 @@ def judge_c05(R):
             if 'callers-never-finish' not in devs and r != 'done':
                 devs.append('callers-never-finish')
             continue
+        # "finishes with a value, an exception or its caller's OWN cancellation": a cancellation nobody requested is none of these
+        out = c.get('out')
+        if out is not None and out[0] == 'cancelled' and name not in R['cancelled_by_harness'] \
+                and not any(l is c['loop'] and ts <= c['done'] for l, ts in R['stops']):
+            devs.append('caller-ended-by-a-cancellation-nobody-requested')
         a, d = c['arrive'], c['done']
         covered = []
         for me in R['inv']:
